@@ -36,6 +36,14 @@ def main():
         r = sh("cmake --build %s/_build 2>&1 | tail -15 && ctest --test-dir %s/_build -j8 --timeout 900 2>&1 | tail -15"
                % (REPO, REPO))
         ok = "100% tests passed" in r.stdout
+        if ok:
+            # the verification harness compiles every TU on its own (no unity build, fewer transitive
+            # includes): a fix that does not compile there would turn every check red
+            here = os.path.dirname(os.path.abspath(__file__))
+            hb = sh("%s %s/build.py 2>&1 | tail -30" % (sys.executable, here))
+            if '"ok": true' not in hb.stdout:
+                ok = False
+                r.stdout += "\nharness build (tools/build.py) failed:\n" + hb.stdout
         if not ok:
             sh("git -C %s checkout -- ." % REPO)
             # new files created by the patch
